@@ -13,7 +13,7 @@ set_option linter.unusedSectionVars false
 set_option linter.unusedVariables false
 
 namespace GT.C19
-open GT.Draw
+open GT.DrawPath
 
 variable {K : Type*} [Field K] [LinearOrder K] [IsStrictOrderedRing K]
 
